@@ -1475,7 +1475,9 @@ class Engine:
             key = (base.name, attr)
             if key in self.schema.fields:
                 ty = self.schema.fields[key]
-                ctx.st = ctx.st.set(base.name, attr, self.sv_of(ctx, v, ty))
+                newsv = self.sv_of(ctx, v, ty)
+                self.detach_field_refs(ctx, base.name, attr)
+                ctx.st = ctx.st.set(base.name, attr, newsv)
                 yield ctx, None
                 return
             r = self.ext.obj_setattr(self, ctx, base, attr, v)
@@ -1622,6 +1624,34 @@ class Engine:
             raise Unsupported('del item of %r' % (cont,))
         yield from r
 
+    def detach_field_refs(self, ctx, obj, field):
+        """Before a whole field is overwritten, locals borrowing a path into it become detached snapshots (the Python
+        objects they name live on)."""
+        for fr in ctx.frames.values():
+            for name, v in list(fr.vars.items()):
+                if isinstance(v, Ref) and v.obj == obj and v.field == field:
+                    sv = self.load(ctx, v)
+                    ty = sv.ty
+                    if isinstance(ty, OptT):
+                        sv = sv.child(('?',))
+                        ty = sv.ty
+                    if isinstance(ty, RecT):
+                        fields = {}
+                        for f, fty in ty.fields.items():
+                            ch = sv.child(('f', f))
+                            if isinstance(fty, Leaf):
+                                fields[f] = S(ch.leaf())
+                            elif isinstance(fty, SeqT):
+                                ctx.assume(ch.c['len'] >= 0)
+                                fields[f] = ctx.alloc('list', PySeq([View(ch.c['arr'], z3.IntVal(0), ch.c['len'])], 'list'))
+                            else:
+                                fields[f] = ctx.alloc('map', ch)
+                        fr.vars[name] = ctx.alloc('rec', fields, cls=self.ext.rec_class_name(ty.name))
+                    elif isinstance(ty, Leaf):
+                        fr.vars[name] = S(sv.leaf())
+                    else:
+                        fr.vars[name] = ctx.alloc('map', sv)
+
     def detach_refs(self, ctx, cont, k):
         """Before a path is deleted, locals borrowing it become detached snapshots (DESIGN.md 3.3)."""
         prefix = cont.path + (('k', k),)
@@ -1636,7 +1666,7 @@ class Engine:
                             ch = sv.child(('f', f))
                             fields[f] = S(ch.leaf()) if isinstance(fty, Leaf) else ctx.alloc('map' if not isinstance(fty, SeqT) else 'list',
                                                                                                 ch if not isinstance(fty, SeqT) else PySeq([View(ch.c['arr'], z3.IntVal(0), ch.c['len'])], 'list'))
-                        fr.vars[name] = ctx.alloc('rec', fields, cls=sv.ty.name)
+                        fr.vars[name] = ctx.alloc('rec', fields, cls=self.ext.rec_class_name(sv.ty.name))
                     elif isinstance(sv.ty, Leaf):
                         fr.vars[name] = S(sv.leaf())
                     else:
